@@ -321,6 +321,10 @@ struct TSQuery {
   Array(TSSymbol) repeat_symbols_with_rootless_patterns;
   const TSLanguage *language;
   uint16_t wildcard_root_pattern_count;
+  // Only used while parsing: after a grouped sequence has been parsed, the index of
+  // the first step of its LAST element (UINT32_MAX after any other pattern). A `.`
+  // that follows the group in its parent anchors that element, not the group's first.
+  uint32_t sequence_last_element_step_index;
 };
 
 /*
@@ -2482,6 +2486,7 @@ static TSQueryError ts_query__parse_pattern(
 
     capture_quantifiers_delete(&branch_capture_quantifiers);
     array_delete(&branch_step_indices);
+    self->sequence_last_element_step_index = UINT32_MAX;
   }
 
   // An open parenthesis can be the start of three possible constructs:
@@ -2495,6 +2500,7 @@ static TSQueryError ts_query__parse_pattern(
     // If this parenthesis is followed by a node, then it represents a grouped sequence.
     if (stream->next == '(' || stream->next == '"' || stream->next == '[') {
       bool child_is_immediate = is_immediate;
+      uint32_t last_element_step_index = UINT32_MAX;
       CaptureQuantifiers child_capture_quantifiers = capture_quantifiers_new();
       for (;;) {
         if (stream->next == '.') {
@@ -2510,6 +2516,8 @@ static TSQueryError ts_query__parse_pattern(
             return TSQueryErrorSyntax;
           }
         }
+        uint32_t element_step_index = self->steps.size;
+        self->sequence_last_element_step_index = UINT32_MAX;
         TSQueryError e = ts_query__parse_pattern(
           self,
           stream,
@@ -2521,6 +2529,7 @@ static TSQueryError ts_query__parse_pattern(
         if (e == PARENT_DONE) {
           if (stream->next == ')') {
             stream_advance(stream);
+            self->sequence_last_element_step_index = last_element_step_index;
             break;
           }
           e = TSQueryErrorSyntax;
@@ -2528,6 +2537,11 @@ static TSQueryError ts_query__parse_pattern(
         if (e) {
           capture_quantifiers_delete(&child_capture_quantifiers);
           return e;
+        }
+        if (self->sequence_last_element_step_index != UINT32_MAX) {
+          last_element_step_index = self->sequence_last_element_step_index;
+        } else if (self->steps.size > element_step_index) {
+          last_element_step_index = element_step_index;
         }
 
         capture_quantifiers_add_all(capture_quantifiers, &child_capture_quantifiers);
@@ -2749,6 +2763,7 @@ static TSQueryError ts_query__parse_pattern(
         }
 
         uint16_t step_index = self->steps.size;
+        self->sequence_last_element_step_index = UINT32_MAX;
         TSQueryError e = ts_query__parse_pattern(
           self,
           stream,
@@ -2807,7 +2822,11 @@ static TSQueryError ts_query__parse_pattern(
 
         capture_quantifiers_add_all(capture_quantifiers, &child_capture_quantifiers);
 
-        last_child_step_index = step_index;
+        // A trailing anchor applies to the last node of the preceding child; when that
+        // child is a grouped sequence, that is the group's last element.
+        last_child_step_index = self->sequence_last_element_step_index != UINT32_MAX
+          ? (uint16_t)self->sequence_last_element_step_index
+          : step_index;
         child_is_immediate = false;
         capture_quantifiers_clear(&child_capture_quantifiers);
       }
